@@ -76,25 +76,25 @@ CLAIMED = {
 # appended to the "decided" text of the property
 ADDED = {
     "C15": "the spaceless pattern is also evaluated on a tag that spans two lines",
-    "C01": "reflect hazards beyond kinds: FieldBy* only through FieldByIndexErr (nil embedded pointers), Call only of non-nil functions and only under a deferred recover that returns a panic of the called code as an error, MethodByName never on a nil pointer, interface == only on values shown comparable, MapIndex only with hashable keys; a value never ends up holding itself; template nesting through include/extends/import/ssi is bounded by a constant depth with an error edge at compile and at execution time; the Render* shortcuts do not go through Must; every cycle of the compile-time call graph (recursive-descent parser, tag parsers, template loading) passes a depth step — a counter compared with a constant whose refusing edge returns an error — and cycles through the loading of another template pass one whose counter is carried from template to template; the nesting bound times the largest execution-time recursion bound stays within a stated stack budget; a context derived from a context carries every integer counter over; a method the engine exposes to templates (block.Super) executes nodes one level deeper, bounded; String()/Error() of caller data is called only under a deferred recover; a rune slice converted from a string is sliced with a computed bound only behind a test of its own length; an error is not rendered to text and wrapped again at every level of a recursion it passes",
+    "C01": "reflect hazards beyond kinds: FieldBy* only through FieldByIndexErr (nil embedded pointers), Call only of non-nil functions and only under a deferred recover that returns a panic of the called code as an error, MethodByName never on a nil pointer, interface == only on values shown comparable, MapIndex only with hashable keys; a value never ends up holding itself; template nesting through include/extends/import/ssi is bounded by a constant depth with an error edge at compile and at execution time; the Render* shortcuts do not go through Must; every cycle of the compile-time call graph (recursive-descent parser, tag parsers, template loading) passes a depth step — a counter compared with a constant whose refusing edge returns an error — and cycles through the loading of another template pass one whose counter is carried from template to template; the nesting one execution can put on the stack (compile-time bounds, added where they are counted separately) times the nested executions of a rendering (execution-time bounds, added up) stays within the effective stack of 2^29 bytes at a stated 1.3 KB per level; a context derived from a context carries every integer counter, and the pointer to the rendering's counters, over; a method the engine exposes to templates (block.Super) executes nodes one level deeper, bounded (in the derived context's counter, or behind a depth step of its own); String()/Error() of caller data is called only under a deferred recover; a rune slice converted from a string is sliced with a computed bound only behind a test of its own length; an error is not rendered to text and wrapped again at every level of a recursion it passes; a field that a nesting bound compares with its constant is written only by steps of itself, copies of the same field, counted parameters or the initialisation of a fresh object; the counters behind the execution-time bounds live in one record per rendering that every derived context and every nested template execution shares",
     "C02": "needsEscape and Value.String agree on which kinds print caller text; the safe mark belongs to the value it was given to and is reset at every step of a path",
     "C03": "the freeze flag is set before a template is constructed also when construction goes through unexported helpers (fromFile); every *Template method that takes a Context is an execution entry; the argument parser WrapUntilTag hands back for an intermediate/closing tag is looked at, never dropped",
     "C04": "map keys obtained from reflect are sorted on every path before they are walked; accumulate-then-sort loops over maps are accepted; objects of per-execution types are not kept in package-level variables; a reader obtained from a loader and read by engine code is closed on every path after the read; an object of an exported per-execution type (Error) that registered code may have handed out is never written (it is completed on a copy); no map kept in the compiled tree is put into a template context",
     "C06": "the conditions that switch verbatim mode are constant patterns which, evaluated on all 299 593 strings of up to 6 items over {{%, %}, space, tab, verbatim, endverbatim, x, -}, accept exactly `{%` blanks* (end)verbatim blanks* `%}` at the position, and the lexer advances by the match; text of a verbatim block is never trimmed; nothing reachable from execution reads the source text kept in a Template; the lexer's tag state ends a tag only behind the emission of a symbol, behind an error report or at the end of the input; where the verbatim mark is the mode flag at emission time, nothing is emitted between leaving the mode and the next pass of the loop",
-    "C07": "and/or are parsed left-associatively, the right operand of `and` never by a level that accepts `or` (one logical level, or `or` over `and`); `%` has a float form (math.Mod under a zero test with an error edge, operands in written order); and/or, comparisons, `in` and not/! yield AsValue(<Go bool>) on every successful path; ^ yields an integer for integers (violated on the pinned tree: known finding, fixture-pinned); a numeric + is reached only when neither operand is a string; `==` compares integers, floats, strings and booleans through their accessors whenever both operands are of the family",
-    "C08": "the resolver and its helpers refer to no package-level variable that changes after initialisation; the variable-name parser returns to its loop head after every step form; a computed list index is Integer() only of a value for which IsInteger() held; every macro parameter is bound (also omitted ones); the reflect Call may be made by a helper that only wraps it (judged at the helper's call site); inside the handling of a step the empty value is returned only from within an arm of the kind switch; the nil test of an error result also looks at what an interface-typed result holds",
-    "C09": "ifchanged does not decide by EqualValueTo alone (which answers false for nil and uncomparable values); the orderings used by `sorted` compare integers with the integer <; the ordering used by `sorted` and by the iteration over maps chooses the kind of comparison by the classes of the two values alone (walked once per pair of classes {integer, float, other}²): an integer next to a float numerically, a number next to a non-number by class; both forms of ifchanged execute their else-part; a template executed by include/ssi shares the per-execution state of the execution that includes it; every tag that starts a nested execution hands its own context on, on every path; a node installs a fresh state object only where the rendering has none; the content form of ifchanged reaches its else-part only after an earlier execution; Integer()/Float() comparisons in the ordering cannot make distinct numbers tie (saturation, NaN) — numbers are compared exactly; over a map the descending key order is taken exactly under `reversed`",
-    "C10": "block.Super renders the parent definition in a child of the calling expression's context; `block` is restored after a nested block; ExecutionContext.template is never reassigned while executing; the level the extends parser tests is the one the tag dispatcher raises before it calls a tag's parser",
-    "C12": "the macro-clash test looks at the exported macros of the template Execute was called on; the context-key pattern, evaluated on an exhaustive small alphabet, accepts exactly identifiers that are no keywords; `for` binds every declared loop variable on every path; globals are validated also with a nil context; the resolver looks methods up by name only on values that are not of the library's own Context map type (whose Update writes its receiver)",
+    "C07": "and/or are parsed left-associatively, the right operand of `and` never by a level that accepts `or` (one logical level, or `or` over `and`); `%` has a float form (math.Mod under a zero test with an error edge, operands in written order); and/or, comparisons, `in` and not/! yield AsValue(<Go bool>) on every successful path; ^ yields an integer for integers (violated on the pinned tree: known finding, fixture-pinned); a numeric + is reached only when neither operand is a string; `==` compares integers, floats, strings and booleans through their accessors whenever both operands are of the family; the minus sign in front of a term is not kept as a flag that negates the value of the whole term (except together with `not`): -a * b is (-a) * b",
+    "C08": "the resolver and its helpers refer to no package-level variable that changes after initialisation; the variable-name parser returns to its loop head after every step form; a computed list index is Integer() only of a value for which IsInteger() held; every macro parameter is bound (also omitted ones); the reflect Call may be made by a helper that only wraps it (judged at the helper's call site); inside the handling of a step the empty value is returned only from within an arm of the kind switch; the nil test of an error result also looks at what an interface-typed result holds; a resolver loop that follows pointers by Elem() goes on for kind Interface as well",
+    "C09": "ifchanged does not decide by EqualValueTo alone (which answers false for nil and uncomparable values); the orderings used by `sorted` compare integers with the integer <; the ordering used by `sorted` and by the iteration over maps chooses the kind of comparison by the classes of the two values alone (walked once per pair of classes {integer, float, other}²): an integer next to a float numerically, a number next to a non-number by class; both forms of ifchanged execute their else-part; a template executed by include/ssi shares the per-execution state of the execution that includes it; every tag that starts a nested execution hands its own context on, on every path; a node installs a fresh state object only where the rendering has none; the content form of ifchanged reaches its else-part only after an earlier execution; Integer()/Float() comparisons in the ordering cannot make distinct numbers tie (saturation, NaN) — numbers are compared exactly; over a map the descending key order is taken exactly under `reversed`; the content form of ifchanged reads "not executed yet" from a remembered content being nil only if no execution can remember nil",
+    "C10": "block.Super renders the parent definition in a child of the calling expression's context; `block` is restored after a nested block; ExecutionContext.template is never reassigned while executing; the level the extends parser tests is the one the tag dispatcher raises before it calls a tag's parser; the definition list kept in a block's information record is built for that execution or lies in storage that execution never writes",
+    "C12": "the macro-clash test looks at the exported macros of the template Execute was called on; the context-key pattern, evaluated on an exhaustive small alphabet, accepts exactly identifiers that are no keywords; `for` binds every declared loop variable on every path; globals are validated also with a nil context; the resolver looks methods up by name only on values that are not of the library's own Context map type (whose Update writes its receiver); nothing kept in the per-rendering node state holds on to a scope's execution context",
     "C13": "a default expression is evaluated only for a parameter the call omits; a positional argument is bound as the *Value it is; a macro can call itself by its defined name under an import alias",
     "C14": "a pooled output buffer is not aliased by what is returned; ExecuteWriterUnbuffered stops writing after and returns the first writer error; a non-nil error of the caller's writer ends ExecuteWriter with that error on every path, and the flush is not retried; the write-through writer forwards no write without bytes",
     "C16": "an existing error is completed with a token only as a whole (Token, Line and Column together, only when it has no position); execution errors are built with their token instead of being completed later; Parser.Error falls back to the token the parser remembers; an error that names another source is not given a position (violated on the pinned tree: known finding, pinned by TestMisc); every parser constructed for a part of a template is given a token to remember when its token list can be empty; an *Error returned by registered code (a call through a function value: tag parser, filter, the implicit escape filter) is completed with template and token wherever the calling function has a template in reach; an error of another template's loading or execution is not completed with a token of the referring template (the completer refuses such errors; one explicit, fixture-pinned site in the include parser is a known finding); in the scanning function every next() is preceded by a newline test of the coming character",
     "C17": "removetags validates each name with a pattern that accepts exactly letter(letter|digit)* (evaluated exhaustively), and returns the input after ONE pass of removal by expression and nothing else (no trimming); escapejs writes \\uXXXX with four digits (surrogate pairs above U+FFFF) and drops nothing; the result of escape is marked safe; the removetags expression, instantiated for sample names and evaluated on all strings of up to 7 items over {<,>,/,a,b,-,x,space}, matches every plain named tag and nothing that is not a tag of that name; every implicit application of the escape filter by a printing node is reached only when the value is not already marked safe",
-    "C18": "every float→int conversion of a runtime value is reached only between an upper and a lower constant bound (saturation); a filter that reads its argument only as a number does not branch on the argument's Go kind; padding filters measure the text they write; make sizes are capped; what widthratio writes never comes from an integer division; FormatFloat in floatformat receives the input's Float() itself; every conversion of a 64-bit unsigned runtime value to a signed integer is reached only below a constant upper bound",
-    "C19": "filter arguments of the filter tag are resolved at compile time against the registry; a `cycle` value never holds a cycle value; the evaluator inside a filtered-variable node is taken out of it only where its chain is empty",
-    "C11": "every with-pair of an include is stored, whatever it evaluates to; the error of reading a loader's reader (and of the resolver) ends in an error return when non-nil; every loader's Abs reads its referring-template parameter (siblings agree); a loader that opens names through an fs.FS/http.FileSystem returns cleaned names and joins its base directory with a path function; a computed include loads a name at most once per rendering",
+    "C18": "every float→int conversion of a runtime value is reached only between an upper and a lower constant bound (saturation); a filter that reads its argument only as a number does not branch on the argument's Go kind; padding filters measure the text they write; make sizes are capped; what widthratio writes never comes from an integer division; FormatFloat in floatformat receives the input's Float() itself; every conversion of a 64-bit unsigned runtime value to a signed integer is reached only below a constant upper bound; integer +, - and x on a number read off a template value happen only after a comparison involving that number (no wrap-around at the ends of the int range); Value.Integer() reads a string through ParseFloat only after an integer parse of it failed; a filter that formats its input with a template-given format does not hand fmt the input's raw Interface() on every path",
+    "C19": "filter arguments of the filter tag are resolved at compile time against the registry; a `cycle` value never holds a cycle value; the evaluator inside a filtered-variable node is taken out of it only where its chain is empty; a parser loop that consumes tokens up to a tag's `%}` keeps every token it consumes: the arguments of an end tag are never dropped unseen",
+    "C11": "every with-pair of an include is stored, whatever it evaluates to; the error of reading a loader's reader (and of the resolver) ends in an error return when non-nil; every loader's Abs reads its referring-template parameter (siblings agree); a loader that opens names through an fs.FS/http.FileSystem returns cleaned names and joins its base directory with a path function; a computed include loads a name at most once per rendering; the include node succeeds only after executing a template or where if_exists is set; a template fetched from the loaders is compiled under the name it was asked for (or its resolveFilename form), never under a name one loader produced",
     "C05": "a library object that is not safe for concurrent use (a *rand.Rand) kept in a package-level variable is shared state",
-    "C20": "the cache is filled by loading the name the caller gave (the same load Debug mode makes), the normalised name being only the key; where the critical section loads a template (loader and registered code run in it) the mutex is released by a deferred Unlock",
+    "C20": "the cache is filled by loading the name the caller gave (the same load Debug mode makes), the normalised name being only the key; where the critical section loads a template (loader and registered code run in it) the mutex is released by a deferred Unlock; no call the cache entry point can make while Debug is set reaches a function that writes the cache; what the entry point returns is a fresh load or an entry of the one cache map, and no other field of the set is typed to keep templates",
 }
 
 CLAIMED["C15"] = ("constant-table extraction (symbol table, trim cut sets evaluated as character sets), provenance of the text node's flags, path-guard queries, and evaluation of the spaceless pattern (with its fix-point loop) on an exhaustive small alphabet",
